@@ -122,3 +122,80 @@ Theorem C14_source_show_binary : forall c p i s, In (c, [p; i; s]) src_show_bina
   forall a b, show (mk_of c a b) = p ++ show a ++ i ++ show b ++ s.
 Proof. exact source_show_binary. Qed.
 Print Assumptions C14_source_show_binary.
+
+(* ======================================================================================== *)
+(* a DECLARATIVE lexical specification, and the tokenizer meets it exactly (Proofs/Gaps3Lex.v).
+   `Lex s ts` (inductive, no fuel, no cursor, no top_level flag): the string s has the token list ts.  Its rules, as one
+   fixed-point equation (C14_lex_rules): the empty string; a skipped whitespace character; a single-character token of
+   the source table model_single; `=>` / `<=>` (model_multi); an identifier = a non-empty MAXIMAL run of non-delimiter
+   characters (`nodelim x`, and `boundary s'`: what follows is the end or starts with whitespace or one of
+   ! & | ^ = < > ( ) ? :); a group `(` i `)` whose inside i lexes on its own (balanced, nesting).  No rule produces
+   anything for a stray `=`, `<`, `>` or an unmatched parenthesis. *)
+From BddVerif Require Import Proofs.Gaps3Lex.
+
+Theorem C14_lex_rules : forall s ts, Lex s ts <->
+  (s = [] /\ ts = []) \/
+  (exists c s', s = c :: s' /\ is_ws c = true /\ Lex s' ts) \/
+  (exists c t s' ts', s = c :: s' /\ ts = t :: ts' /\ In (c, t) model_single /\ Lex s' ts') \/
+  (exists w t s' ts', s = w ++ s' /\ ts = t :: ts' /\ In (w, t) model_multi /\ Lex s' ts') \/
+  (exists x s' ts', s = x ++ s' /\ ts = TId x :: ts' /\ x <> [] /\ nodelim x = true /\ boundary s' /\ Lex s' ts') \/
+  (exists i inner s' ts', s = 40%N :: i ++ 41%N :: s' /\ ts = TGroup inner :: ts' /\ Lex i inner /\ Lex s' ts').
+Proof. exact Lex_unfold. Qed.
+Print Assumptions C14_lex_rules.
+
+Theorem C14_lex_vocabulary :
+  (forall x, nodelim x = true <-> forall c, In c x -> is_ws c = false /\ reserved c = false) /\
+  (forall s, boundary s <-> match s with [] => True | c :: _ => is_ws c || reserved c = true end) /\
+  model_single = [(33, TNot); (38, TAnd); (58, TColon); (63, TQuestion); (94, TXor); (124, TOr)]%N /\
+  model_multi = [([61; 62], TImp); ([60; 61; 62], TIff)]%N.
+Proof.
+  split; [exact nodelim_iff|]. split; [|split; reflexivity]. intros s. destruct s; reflexivity.
+Qed.
+Print Assumptions C14_lex_vocabulary.
+
+(* soundness + completeness: the tokenizer succeeds with ts exactly on the strings that lex to ts *)
+Theorem C14_tokenize_lex : forall s ts, tokenize s = TOk ts [] <-> Lex s ts.
+Proof. exact tokenize_lex. Qed.
+Print Assumptions C14_tokenize_lex.
+
+(* a successful top-level run always consumes the whole string *)
+Theorem C14_tokenize_lex_sound : forall s ts rest, tokenize s = TOk ts rest -> rest = [] /\ Lex s ts.
+Proof. exact tokenize_lex_sound. Qed.
+Print Assumptions C14_tokenize_lex_sound.
+
+(* errors: the tokenizer answers Err exactly on the strings that have no token list (it never runs out of fuel:
+   C14_parse_terminates); the relation is functional *)
+Theorem C14_tokenize_err_iff : forall s, tokenize s = TErr <-> forall ts, ~ Lex s ts.
+Proof. exact tokenize_err_iff. Qed.
+Print Assumptions C14_tokenize_err_iff.
+
+Theorem C14_lex_functional : forall s ts ts', Lex s ts -> Lex s ts' -> ts = ts'.
+Proof. exact lex_functional. Qed.
+Print Assumptions C14_lex_functional.
+
+(* the recursive call for a group returns the tokens of the text up to the matching `)` and the text after it *)
+Theorem C14_tokenize_group_lex : forall f s ts rest, tokenize_group f s false = TOk ts rest ->
+  exists inner, s = inner ++ 41%N :: rest /\ Lex inner ts.
+Proof. exact tokenize_group_lex. Qed.
+Print Assumptions C14_tokenize_group_lex.
+
+(* the whole front end without any operational notion: lexical specification + grammar *)
+Theorem C14_parse_string_lex_grammar : forall s e, parse_string s = POk e <-> exists ts, Lex s ts /\ G LIff ts e.
+Proof. exact parse_string_lex_grammar. Qed.
+Print Assumptions C14_parse_string_lex_grammar.
+
+(* "a1 &(!b<=> c )=>d"; stray `=`, `<`, `<=`, `>`; unbalanced parentheses; `ab` is one identifier, never two *)
+Example C14_lex_examples :
+  Lex [97; 49; 32; 38; 40; 33; 98; 60; 61; 62; 32; 99; 32; 41; 61; 62; 100]%N
+      [TId [97; 49]%N; TAnd; TGroup [TNot; TId [98%N]; TIff; TId [99%N]]; TImp; TId [100%N]] /\
+  (forall ts, ~ Lex [97; 32; 61; 32; 98]%N ts) /\
+  (forall ts, ~ Lex [97; 32; 60; 32; 98]%N ts) /\
+  (forall ts, ~ Lex [97; 32; 60; 61; 32; 98]%N ts) /\
+  (forall ts, ~ Lex [62]%N ts) /\
+  (forall ts, ~ Lex [40; 97]%N ts) /\
+  (forall ts, ~ Lex [97; 41]%N ts) /\
+  (forall ts, ~ Lex [40; 40; 97; 41]%N ts) /\
+  Lex [97; 98]%N [TId [97; 98]%N] /\ ~ Lex [97; 98]%N [TId [97%N]; TId [98%N]] /\
+  Lex [40; 41]%N [TGroup []] /\ Lex [32; 9]%N [].
+Proof. exact lex_examples. Qed.
+Print Assumptions C14_lex_examples.
